@@ -5,8 +5,12 @@ from tornado import escape as _escape_preload   # imported before the workers fo
 
 ID = "C21"
 LEAN_TARGETS = ["TornadoModel.C21.Props"]
-THEOREMS = [
-]
+THEOREMS = ["TornadoModel.C21." + n for n in [
+    "escape_safe", "escape_no_special", "unescape_escape", "escape_bytes",
+    "unquote_quote", "unquote_quote_bytes", "quote_ascii",
+    "json_no_close_tag",
+    "utf8_roundtrip", "utf8_roundtrip_bytes", "utf8_rejects_other",
+]]
 TRUSTED = [
     "html.escape / html.unescape (CPython 3.12 html/__init__.py) as modelled in C21/Model.lean; the entity table "
     "html.entities.html5 is data: the harness hands the model every entry whose key occurs in the input",
@@ -34,7 +38,7 @@ CLAUSES = {
     "UTF-8 conversion helpers are mutually inverse on valid data and reject other types": "utf8_roundtrip, utf8_roundtrip_bytes, utf8_rejects_other",
     "parsing a query string given as bytes (or their latin-1 decoding) preserves every byte of every name and value": "qs_bytes_preserved",
 }
-PARALLEL = True
+PARALLEL = False   # sequential is faster here: ~10^4 cases/s in-process, fork+pickle costs more (measured 1.5 s vs 24 s)
 LEVEL_TEXT = "proof"
 TECHNIQUE = "Lean 4 theorems over an executable model of escape.py + the stdlib algorithms it delegates to; differential correspondence on every run"
 
